@@ -19,17 +19,17 @@ TEXT = {
          "A stale read that makes an old event look current is outside the statement (undetectable without conditional writes). " + TRUST,
          "Coq proof (handler facts for every state + token theorem) + differential correspondence + monitor"),
  "C05": ("Theorems (world invariant, all histories): a Store appends exactly one write and one outbox entry routing it; every committed write is in the outbox or published; every log event and outbox entry stems from a committed write. " + ENGINE_Q + "For every state and batch an entry is deleted only directly after its successful send and close (theorem on the cycle's trace). Correspondence + the same monitor clause at every fault position of the cycle on the real purgeOutbox.",
-         "The liveness count (ceil(n/limit) fault-free cycles drain the outbox) is monitored, not a theorem. " + TRUST,
+         "Outbox IDs distinct in every reachable world and a fault-free cycle drains exactly min(limit, n) entries are theorems too. " + TRUST,
          "Coq proof (publish invariant by induction over operations) + differential correspondence + monitor"),
  "C06": ("Theorems: routing is a total function of the record for all integer run-state codes; topic strings of one workflow are pairwise distinct for every name (itoa injective); Await release condition (repaired F9; the original refuted with a witness); for all histories the event a consumer receives is of its own topic and announces a committed write routed to that topic. Correspondence: exhaustive grid through the real protobuf outbox entry and topic.go; await family.",
          "DecimalString models strconv.FormatInt (swept by the harness). " + TRUST,
          "Coq proof + exhaustive grid correspondence + engine correspondence"),
  "C07": ("Theorems: for EVERY state a failing handler leaves no ack, an ack follows a nil handler or a filter, errors take the error exit (close, back-off), only Ack moves a committed position; for all histories with NO hypothesis the committed position never passes an event that was neither filtered nor handled to completion, and Recv returns the first event of the topic at or after the position (=> an unacknowledged event is handled again). Correspondence: every consumer kind x every failure position on the real consume loop.",
-         "PARTIAL: the lag-timing clause and the connector event round trip are decided by the monitor / correspondence only. " + TRUST,
+         "The consume lag is proved for every state (young event parked until created+lag). PARTIAL: the connector event round trip is proved under the hypothesis dec(enc e) = e about encoding/json, which the connrt family exercises on the real functions (FNV-1 event ID modelled in Coq). " + TRUST,
          "Coq proof (handler facts for every state + delivery invariant over all histories) + differential correspondence + monitor"),
  "C08": ("Theorems (all histories): no step/callback/timeout function is invoked while the run's persisted state is Paused/Cancelled/RequestedDataDeleted/DataDeleted; a stopped run keeps status and object (but for the deletion rewrite). " + ENGINE_Q + "Correspondence: control operations (API, controller, from step functions, by error count) at every position of generated histories.",
          TRUST, "Coq proof (token theorem over all histories) + differential correspondence + monitor"),
- "C09": ("Theorems: a new run is Initiated, version 1, at a declared status; world invariant for all histories: every run followed by a later run of its foreign ID is finished (at most one unfinished). Composition with C17 (memrecordstore refines the reference store, Latest = newest created). " + ENGINE_Q,
+ "C09": ("Theorems: a new run is Initiated, version 1, at a declared status; world invariant for all histories: every run followed by a later run of its foreign ID is finished (at most one unfinished). For every state Trigger returns an error with no Store (bad start, unfinished latest run, failed lookup) or performs exactly one Store of the fresh record. Composition with C17 (memrecordstore refines the reference store, Latest = newest created). " + ENGINE_Q,
          TRUST, "Coq proof (world invariant by induction over operations) + differential correspondence + monitor"),
  "C10": ("Theorems over the shard filter: for every integer event ID and every shard count n >= 2 exactly one shard handles the event; the original truncated remainder refuted (F7, repaired). Correspondence: real shardFilter on all residues and both signs; the launch family compares the roles the real Run requests with the model's enumeration on the whole configuration grid (per-unit/default counts 0..8 x hooks x timeouts x connectors x paused-retry, two display-string variants).",
          "Launch: theorems that the model's launch list is exactly the configured units, each once, with max(1,n) consumers forming shards 1..n of n; the list is tied to the real Run by the launch family. PARTIAL: distinctness of the role-name strings is an exhaustive comparison on the grid, not a theorem. int64 modelled as Z. " + TRUST,
